@@ -507,7 +507,7 @@ QUICK_DATASETS = {
     "C09": ["six-mixed", "later-id-first", "ties-incomplete", "sparse-components", "big-bucket"],
     "C10": ["six-mixed", "unanimous", "ties-incomplete", "two-opposed", "four-mixed"],
     "C11": ["unanimous", "strings", "ties-incomplete", "big-bucket", "two-opposed"],
-    "C12": ["six-mixed", "ties-incomplete", "four-mixed", "with-empty", "big-bucket"],
+    "C12": ["equal-means-3-15", "equal-means-5-15", "equal-means-3-6", "six-mixed", "ties-incomplete", "four-mixed", "with-empty", "big-bucket"],
 }
 QUICK_SCHEMES = {
     "C02": ["generic", "unifying"], "C13": ["generic", "unifying", "induced"], "C04": ["unifying", "unifying-p0.5", "generic"],
